@@ -67,6 +67,8 @@ def offpolicy(tier: str, prop: str) -> list[dict]:
         dict(sac, kind="box", dims=[2], S=5, n=1, T=2, buffer=6, starts=6, batch=6, pfreq=2, autotune=True, stack=["TimeLimit"]),
         dict(sac, kind="boxscalar", dims=[2], S=4, n=2, T=1, buffer=8, starts=4, batch=8, pfreq=1, autotune=False, stack=["TimeLimit"]),
         dict(sac, kind="box", dims=[2, 2], S=6, n=1, T=1, buffer=10, starts=10, batch=10, pfreq=3, autotune=True, stack=[]),
+        dict(sac, kind="box", dims=[2], S=4, n=1, T=1, buffer=6, starts=6, batch=6, pfreq=3, autotune=False, stack=["TimeLimit"]),   # gating without autotune
+        dict(sac, kind="boxscalar", dims=[4], S=5, n=2, T=2, buffer=8, starts=4, batch=8, pfreq=2, autotune=False, stack=[]),
     ]
     # independence probe (C12): uniformly random behaviour that does not depend on the state, enough steps that two
     # nodes producing the same action stream by chance has probability <= 2^-48
